@@ -18,13 +18,17 @@ Local Open Scope nat_scope.
      sched_terminates             no execution is longer than that, and every partial execution extends to a maximal one
      sched_no_deadlock            in every reachable state some thread can move, or main has returned pardot t v w
      sched_no_panic               no reachable state contains a panicked worker or a panicked main thread
+     sched_final_state            the final STATE of every maximal execution is the same (unique normal form)
      sched_diamond                in every reachable state the steps of two different threads commute
+     sched_parallel_step          pairwise different threads that can all move in a reachable state may move
+                                  simultaneously: fired in any order they all succeed and reach the same state
      sched_refines_run_sched      the order in which the workers finish along a maximal execution is a permutation
                                   sigma, and main returns run_sched sigma (the coarse scheduler of round one)
      sched_realises_every_order   conversely every permutation is the completion order of some maximal execution
      completion_order_refuted     the variant that adds the partial sums in completion order (a shared accumulator:
                                   seeded mutation C16-4) has two maximal executions with different binary64 results
      pardot_any_workers_total     for every t >= 1 and every length: every slice is in range, the result is a value
+     pardot_index_arith_in_range  every usize the spawn loop computes is <= len (no wrap-around in any profile)
      pardot_outcomes              complete outcome table: size mismatch -> Guard (whatever t); t = 0 -> DivZero
                                   (`self.size() / num_threads` panics: Rust integer division by zero panics in every
                                   profile); otherwise a value.  num_cpus::get() >= 1 is TRUSTED (num_cpus 1.16 on
@@ -34,7 +38,7 @@ Local Open Scope nat_scope.
                                   the sequential dot (bit for bit).
    --------------------------------------------------------------------------------------------------------------- *)
 From OV Require Import Model.ParSched Proofs.ParSched Proofs.ParSchedOrder Proofs.ParSchedReal Proofs.ParSchedConfl
-  Proofs.ParSchedRefuted Proofs.ParSchedFloat Proofs.ParSchedTop.
+  Proofs.ParSchedRefuted Proofs.ParSchedFloat Proofs.ParSchedTop Proofs.ParSchedMore.
 
 Theorem sched_deterministic : forall (A : Arith) (v w : list A) t s0 n s,
   par_program v w t = Ok s0 -> steps v w t n s0 s -> terminal v w t s ->
@@ -82,6 +86,15 @@ Check sched_no_panic : forall (A : Arith) (v w : list A) t s0 n s,
   (forall k, nth_error (ws s) k <> Some WPanicked) /\ (forall r, main s = MRet r -> exists x, r = Ok x).
 Print Assumptions sched_no_panic.
 
+Theorem sched_final_state : forall (A : Arith) (v w : list A) t s0 n s,
+  par_program v w t = Ok s0 -> steps v w t n s0 s -> terminal v w t s ->
+  s = mkState (MRet (pardot t v w)) (repeat WJoined t).
+Proof. intros A v w t s0 n s HP HS HT. exact (sched_final_state_lemma v w t s0 n s HP HS HT). Qed.
+Check sched_final_state : forall (A : Arith) (v w : list A) t s0 n s,
+  par_program v w t = Ok s0 -> steps v w t n s0 s -> terminal v w t s ->
+  s = mkState (MRet (pardot t v w)) (repeat WJoined t).
+Print Assumptions sched_final_state.
+
 Theorem sched_diamond : forall (A : Arith) (v w : list A) t s0 n s th1 th2 s1 s2,
   par_program v w t = Ok s0 -> steps v w t n s0 s -> th1 <> th2 ->
   fire v w t th1 s = Some s1 -> fire v w t th2 s = Some s2 ->
@@ -103,6 +116,19 @@ Example sched_diamond_nonvacuous :
     is_some (fire cx_v cx_w 3 Main s) = true /\ is_some (fire cx_v cx_w 3 (Wk 0) s) = true /\
     is_some (fire cx_v cx_w 3 (Wk 1) s) = true.
 Proof. exact cx_three_enabled. Qed.
+
+Theorem sched_parallel_step : forall (A : Arith) (v w : list A) t s0 n s l l',
+  par_program v w t = Ok s0 -> steps v w t n s0 s ->
+  NoDup l -> (forall th, In th l -> exists s1, fire v w t th s = Some s1) -> Permutation l l' ->
+  exists s', exec v w t l s = Some s' /\ exec v w t l' s = Some s'.
+Proof.
+  intros A v w t s0 n s l l' HP HS ND HE HPm. exact (sched_parallel_step_lemma v w t s0 n s l l' HP HS ND HE HPm).
+Qed.
+Check sched_parallel_step : forall (A : Arith) (v w : list A) t s0 n s l l',
+  par_program v w t = Ok s0 -> steps v w t n s0 s ->
+  NoDup l -> (forall th, In th l -> exists s1, fire v w t th s = Some s1) -> Permutation l l' ->
+  exists s', exec v w t l s = Some s' /\ exec v w t l' s = Some s'.
+Print Assumptions sched_parallel_step.
 
 Theorem sched_refines_run_sched : forall (A : Arith) (v w : list A) t s0 sch s,
   par_program v w t = Ok s0 -> exec v w t sch s0 = Some s -> terminal v w t s ->
@@ -162,6 +188,15 @@ Example pardot_any_workers_total_nonvacuous :
     = Ok [([], []); ([], []); ([], []); ([], []); ([], []); ([], []); ([q 1 2; q 3 1], [q 2 1; q 1 3])] /\
   pardot (A := AQ) 7 [q 1 2; q 3 1] [q 2 1; q 1 3] = Ok (q 2 1).
 Proof. repeat split; auto with arith. Qed.
+
+Theorem pardot_index_arith_in_range : forall (len t i : nat), 1 <= t -> i < t ->
+  0 <= t - 1 /\ t - 1 + 1 = t /\ i * (len / t) <= len /\ (i <> t - 1 -> (i + 1) * (len / t) <= len) /\
+  fst (chunk_bounds len t i) <= snd (chunk_bounds len t i) <= len.
+Proof. intros len t i Ht Hi. exact (pardot_index_arith_in_range_lemma len t i Ht Hi). Qed.
+Check pardot_index_arith_in_range : forall (len t i : nat), 1 <= t -> i < t ->
+  0 <= t - 1 /\ t - 1 + 1 = t /\ i * (len / t) <= len /\ (i <> t - 1 -> (i + 1) * (len / t) <= len) /\
+  fst (chunk_bounds len t i) <= snd (chunk_bounds len t i) <= len.
+Print Assumptions pardot_index_arith_in_range.
 
 Theorem pardot_outcomes : forall (A : Arith) t (v w : list A),
   (length v <> length w -> pardot t v w = Panic Guard) /\
